@@ -368,6 +368,14 @@ def _check_constructor(ctx, P):
     for fn, (fv, fexp) in fills.items():
         if fn != "None":
             _one_ctor(ctx, P, fi, "False", False, periodics["False"][1], "None", None, {}, fn, fv, fexp)
+    # the Grid-level fill value is kept whatever the rule of the axis is at construction (a per-call boundary='fill' on a
+    # periodic axis uses it)
+    for fn, (fv, fexp) in fills.items():
+        if fn == "None":
+            continue
+        for pn in ("True", "['AX']", "{'AX': False}"):
+            for bn in ("None", "{'AY': 'fill'}"):
+                _one_ctor(ctx, P, fi, pn, periodics[pn][0], periodics[pn][1], bn, boundaries[bn][0], boundaries[bn][1], fn, fv, fexp)
 
 
 def _one_ctor(ctx, P, fi, pn, pv, pexp, bn, bv, bexp, fn, fv, fexp):
